@@ -378,6 +378,15 @@ def use(case):
         _ACTIVE["installed"] = True
 
 
+def int_cases():
+    """meshes given by integer coordinates (as one writes small examples / voxel meshes), vertex array of integer dtype"""
+    ov, ot = octahedron()
+    gv, gt = grid(3, 2)
+    gv = gv.copy(); gv[:, 2] = (gv[:, 0] * gv[:, 1]) % 2
+    return [dict(v=np.round(2 * ov), t=ot, tags={"int-octahedron", "int-coords"}, name="int-octahedron", vdtype="int64"),
+            dict(v=gv, t=gt, tags={"int-grid", "int-coords"}, name="int-grid", vdtype="int64", pres="t-fortran")]
+
+
 def add_trailing_free(rng, v, t, k=2):
     """append k unused vertices at the END of the vertex array"""
     return np.vstack([v, rng.uniform(-1, 1, (k, 3))]), t.copy()
@@ -413,8 +422,9 @@ def tria_bases(rng, size="small"):
     return out
 
 
-def tria_stream(seed, n, size="small", classes=None, modifiers=True):
-    """yield n triangle-mesh cases; `classes` restricts base names"""
+def tria_stream(seed, n, size="small", classes=None, modifiers=True, first=()):
+    """yield n triangle-mesh cases; `classes` restricts base names; families named in `first` lead the first round, so that
+    even a short stream contains them"""
     k = 0
     rnd = 0
     while k < n:
@@ -422,6 +432,8 @@ def tria_stream(seed, n, size="small", classes=None, modifiers=True):
         rnd += 1
         bases = tria_bases(rng, size)
         order = rng.permutation(len(bases))        # every prefix of the stream mixes the families
+        if first and rnd == 1:
+            order = sorted(order, key=lambda i: 0 if bases[i][0] in first else 1)
         for name, (v, t) in [bases[i] for i in order]:
             if classes is not None and name not in classes:
                 continue
